@@ -532,3 +532,27 @@ V('to-string-set-of-trees', 'depccg/printer/__init__.py', "    if format in ('ji
   "    nbest_trees = [sorted(set(trees), key=lambda t: t.score, reverse=True) for trees in nbest_trees]\n    if format in ('jigg_xml_ccg2lambda', 'ccg2lambda'):\n        lang = get_global_language()", ['C18'])
 V('argparse-beta-twice', 'depccg/argparse.py', "    parser.set_defaults(func=lambda _: parser.print_help())\n    subparsers = parser.add_subparsers()", "    parser.set_defaults(func=lambda _: parser.print_help())\n    parser.add_argument('--beta', default=0.00001, type=float)\n    subparsers = parser.add_subparsers()", ['C16'])
 V('ja-unary-table-three-args', 'depccg/models/unary_rules.ja.jsonnet', "    ['S[mod=adn,form=imp,fin=f]',", "    ['((S[mod=adv,form=cont,fin=f]\\\\NP[case=ga,mod=nm,fin=f])\\\\NP[case=ni,mod=nm,fin=f])\\\\NP[case=o,mod=nm,fin=f]', 'S[mod=X1,form=X2,fin=X3]/S[mod=X1,form=X2,fin=X3]'],\n    ['S[mod=adn,form=imp,fin=f]',", ['C04'])
+# ---------------------------------------------------------------- round 8
+_AGENDA_DROP = ("    class agenda : public std::priority_queue<cell_item>\n    {\n    public:\n        void push(const cell_item &item)\n        {\n"
+                "            if (std::isfinite(item.score()))\n                std::priority_queue<cell_item>::push(item);\n        }\n    };\n\n    class chart\n    {")
+_AGENDA_FWD = ("    class agenda : public std::priority_queue<cell_item>\n    {\n    public:\n        void push(const cell_item &item)\n        {\n"
+               "            std::priority_queue<cell_item>::push(item);\n        }\n    };\n\n    class chart\n    {")
+V2('h-agenda-class-drops-items', [(H, "    class chart\n    {", _AGENDA_DROP, 1), (H, "    std::priority_queue<parsing::cell_item> agenda;", "    parsing::agenda agenda;", 1)], ['C01'])
+V2('h-agenda-class-forwards', [(H, "    class chart\n    {", _AGENDA_FWD, 1), (H, "    std::priority_queue<parsing::cell_item> agenda;", "    parsing::agenda agenda;", 1)],
+   ['C01', 'C02', 'C09', 'C10', 'C11', 'C12', 'C16', 'C19'], expect='silent')
+V('x-score-buffers-any-layout', PYX, "    cdef np.ndarray[float, ndim=2, mode='c'] tag_scores\n    cdef np.ndarray[float, ndim=2, mode='c'] dep_scores",
+  "    cdef np.ndarray[float, ndim=2] tag_scores\n    cdef np.ndarray[float, ndim=2] dep_scores", ['C01', 'C16'])
+_KW_OLD = ("    kwargs = dict(\n        unary_penalty=args.unary_penalty,\n        nbest=args.nbest,\n        pruning_size=args.pruning_size,\n        beta=args.beta,\n"
+           "        use_beta=not args.disable_beta,\n        max_length=args.max_length,\n        max_step=args.max_step,\n        processes=args.num_processes,\n    )\n")
+V('main-options-by-name', 'depccg/__main__.py', _KW_OLD,
+  "    import inspect\n    run_arguments = inspect.signature(depccg.parsing.run).parameters\n    kwargs = {\n        name: value\n        for name, value in vars(args).items()\n        if name in run_arguments\n    }\n    kwargs['processes'] = args.num_processes\n", ['C16', 'C01'])
+V('main-options-by-name-plus-switch', 'depccg/__main__.py', _KW_OLD,
+  "    import inspect\n    run_arguments = inspect.signature(depccg.parsing.run).parameters\n    kwargs = {\n        name: value\n        for name, value in vars(args).items()\n        if name in run_arguments\n    }\n    kwargs['processes'] = args.num_processes\n    kwargs['use_beta'] = not args.disable_beta\n", ['C16', 'C01', 'C02', 'C09'], expect='silent')
+V('en-result-as-text', 'depccg/grammar/en.py', '        result = Category.parse("(S\\\\NP)\\\\(S\\\\NP)")', '        result = "(S\\\\NP)\\\\(S\\\\NP)"', ['C13'])
+V2('en-conj-atomic-result', [('depccg/grammar/en.py', "def remove_punctuation1(", "def conjunction3(x: Category, y: Category) -> Optional[CombinatorResult]:\n    if y == \"conj\" and x != \"conj\" and not _is_punct(x):\n        result = x\n        return CombinatorResult(\n            cat=result,\n            op_string=\"conj\",\n            op_symbol=\"<Φ>\",\n            head_is_left=True,\n        )\n    return None\n\n\ndef remove_punctuation1(", 1),
+                              ('depccg/grammar/en.py', "    conjunction2,\n", "    conjunction2,\n    conjunction3,\n", 1)], ['C19'])
+V2('grammar-head-from-setting', [('depccg/grammar/ja.py', "from depccg.types import Combinator, CombinatorResult\n", "from depccg.types import Combinator, CombinatorResult\nfrom depccg.lang import get_global_language\n", 1),
+                                 ('depccg/grammar/ja.py', "            op_string=\"fa\",\n            op_symbol=\">\",\n            head_is_left=False,", "            op_string=\"fa\",\n            op_symbol=\">\",\n            head_is_left=get_global_language() == 'en',", 1)], ['C14'])
+V('tree-word-normalised', 'depccg/tree.py', "        return ' '.join(token[token_key] for token in self.tokens)", "        return ' '.join(token[token_key].replace('-LRB-', '(').replace('-RRB-', ')') for token in self.tokens)", ['C07'])
+V('ja-unary-generator', 'depccg/grammar/ja.py', "    results = []\n    for result in unary_rules[x]:\n        op_string = _unary_rule_symbol(x)\n        results.append(\n            CombinatorResult(\n                cat=result,\n                op_string=op_string,\n                op_symbol=op_string,\n                head_is_left=True,\n            )\n        )\n    return results",
+  "    op_string = _unary_rule_symbol(x)\n    return (\n        CombinatorResult(\n            cat=result,\n            op_string=op_string,\n            op_symbol=op_string,\n            head_is_left=True,\n        )\n        for result in unary_rules[x]\n    )", ['C14'])
